@@ -65,6 +65,10 @@ fn run_case(c: &Case, scratch: &str, idx: usize) -> Value {
   for (path, content) in &c.files {
     p.write(path, content.as_bytes());
   }
+  if c.id.starts_with("custom-injection") {
+    // documents made by the project's own `languageInjections`: css inside styled`..` templates of JavaScript files
+    p.config(Some(&json!({"languageInjections": [{"hostLanguage": "js", "rule": {"pattern": "styled`$CONTENT`"}, "injected": "css"}]})));
+  }
   let mut args: Vec<String> = vec![];
   if c.scan {
     let mut rule = json!({"id": "r", "language": c.lang, "severity": "warning", "message": "found $A", "rule": {"pattern": c.pattern}});
@@ -283,6 +287,12 @@ pub fn drive(corpus: &str, seed: u64, out: &str, thorough: bool) {
     let (style, ctx) = [("stream", (0, 0, false)), ("compact", (1, 1, true)), ("pretty", (0, 2, false))][j % 3];
     cases.push(Case { id: format!("embedded-{lang}-{j}"), files: vec![("web/p.html".to_string(), text), ("web/q.html".to_string(), "<p>none</p>\n".to_string())], lang, pattern: pattern.to_string(),
                       rewrite: if j == 0 { Some("bar($A)".to_string()) } else { None }, ctx, style, scan: true, kind: if lang == "Css" { Some("declaration".to_string()) } else { None } });
+  }
+  // ... and the same for documents of a custom injection (offsets, lines and columns are those of the JavaScript file)
+  let styled = "// é中🦀\nconst a = styled`\n  a { color: red }\n  b { margin: 0; color: \"é\" }\n`;\nconst é = \"🦀\"; const b = styled`c { color: blue }`;\n";
+  for (j, text) in [styled.to_string(), styled.replace('\n', "\r\n")].into_iter().enumerate() {
+    let (style, ctx) = [("stream", (0, 0, false)), ("pretty", (1, 1, true))][j % 2];
+    cases.push(Case { id: format!("custom-injection-{j}"), files: vec![("web/s.js".to_string(), text)], lang: "Css", pattern: String::new(), rewrite: None, ctx, style, scan: true, kind: Some("declaration".to_string()) });
   }
   let scratch = format!("/var/tmp/agv-c16-{}", std::process::id());
   let recs = cli::par_map(&cases, 12, |i, c| run_case(c, &scratch, i));
